@@ -157,6 +157,8 @@ class VerifyEnv:
         if model is None or attr not in model:
             raise Unsupported("store to field %s of symbolic %s" % (attr, ref.cls))
         shp = model[attr]
+        if not isinstance(shp, Shape):
+            return          # field modelled by a function / stub name: stores are not tracked
         comps = shp.unpack(v)
         for k, (srt, c) in enumerate(zip(shp.sorts, comps)):
             key = (ref.cls, "%s#%d" % (attr, k))
